@@ -12,6 +12,9 @@ from .core import Prop, rp_import, run_impl_cases
 from .sides import Sides, Spec
 
 STATES = None
+EXCS = {'ValueError': ValueError, 'SystemExit': SystemExit, 'KeyboardInterrupt': KeyboardInterrupt,
+        'GeneratorExit': GeneratorExit}
+RAISES = sorted(EXCS)
 
 
 def _states():
@@ -67,7 +70,7 @@ class C06Updates(Prop):
         '(_USE_BULK_CB), profiling/logging',
     ]
     assumptions = ['notifications carry state names of states.py (unknown names raise KeyError in the code and are '
-                   'outside the model)', 'callbacks themselves do not raise (the code logs and continues)']
+                   'outside the model)']
 
     # ------------------------------------------------------------------ cases
     def cases(self, rng, tier):
@@ -95,7 +98,18 @@ class C06Updates(Prop):
                     if rng.random() < 0.15:
                         b.append([u, st])
                 batches.append(b)
-            yield {'kind': 'batches', 'tasks': tasks, 'batches': batches}
+            c = {'kind': 'batches', 'tasks': tasks, 'batches': batches}
+            if rng.random() < 0.3:
+                # an application callback registered before the recording one raises -- anything, also what only
+                # derives from BaseException (the `sys.exit(1)` on FAILED of the project's own examples): the code
+                # logs it and goes on, the recording callback and the other tasks of the batch see what the model says
+                c['raiser'] = [rng.choice(RAISES), '*' if rng.random() < 0.3 else
+                               sorted(set(rng.choice(finals + S) for _k in range(rng.randint(1, 3))))]
+            yield c
+        for name in RAISES:
+            yield {'kind': 'batches', 'tasks': [[1, 'NEW'], [2, 'NEW'], [3, 'AGENT_EXECUTING']], 'raiser': [name, ['FAILED']],
+                   'batches': [[[1, 'AGENT_EXECUTING'], [2, 'AGENT_EXECUTING']], [[1, 'FAILED'], [2, 'AGENT_STAGING_OUTPUT_PENDING'],
+                               [3, 'DONE']], [[2, 'DONE']]]}
         if tier == 'thorough':
             # exhaustive: all sequences of <= 3 notifications over 2 tasks and 6 representative states
             R = ['NEW', 'TMGR_SCHEDULING', 'AGENT_EXECUTING', 'DONE', 'FAILED', 'CANCELED']
@@ -111,7 +125,7 @@ class C06Updates(Prop):
     def impl_setup(self):
         self.rp = rp_import()
 
-    def _mk(self, tasks):
+    def _mk(self, tasks, raiser=None):
         rp = self.rp
         from radical.pilot.task import Task
         from radical.pilot.task_manager import TaskManager
@@ -129,7 +143,16 @@ class C06Updates(Prop):
 
         def cb(task, state):
             seen.append([int(task.uid.split('.')[1]), state])
-        tm._callbacks = {rpc.TASK_STATE: {'*': {'rec': {'cb': cb, 'cb_data': None}}}}
+        cbs = {}
+        if raiser:
+            exc, on = EXCS[raiser[0]], raiser[1]
+
+            def boom(task, state):
+                if on == '*' or state in on:
+                    raise exc('callback of the application gives up')
+            cbs['boom'] = {'cb': boom, 'cb_data': None}
+        cbs['rec'] = {'cb': cb, 'cb_data': None}
+        tm._callbacks = {rpc.TASK_STATE: {'*': cbs}}
         for u, s in tasks:
             with mock.patch.object(Task, '__init__', return_value=None):
                 t = Task()
@@ -159,14 +182,14 @@ class C06Updates(Prop):
                 return {'state': t.state}
             except Exception as e:
                 return {'exc': type(e).__name__}
-        tm, seen = self._mk(case['tasks'])
+        tm, seen = self._mk(case['tasks'], case.get('raiser'))
         out = []
         for b in case['batches']:
             del seen[:]
             exc = None
             try:
                 tm._update_tasks([{'uid': 'task.%06d' % u, 'state': s, 'type': 'task'} for u, s in b])
-            except Exception as e:
+            except BaseException as e:                                                                   # noqa
                 exc = type(e).__name__
             out.append({'cbs': [list(x) for x in seen],
                         'states': [[u, tm._tasks['task.%06d' % u].state] for u, _ in case['tasks']],
@@ -211,6 +234,8 @@ class C06Updates(Prop):
         if case['kind'] != 'batches':
             return
         bs = case['batches']
+        if case.get('raiser'):
+            yield {k: v for k, v in case.items() if k != 'raiser'}
         for i in range(len(bs)):
             yield dict(case, batches=bs[:i] + bs[i + 1:])
         for i, b in enumerate(bs):
@@ -231,6 +256,7 @@ class C06Updates(Prop):
             if r['obs'] and ('exc' in r['obs'] or any(o.get('exc') for o in r['obs'].get('per_batch', []))):
                 exc += 1
         return dict(kinds=kinds, cases_with_exception=exc,
+                    cases_with_raising_callback=sum(1 for r in results if r['case'].get('raiser')),
                     mean_notifications=round(sum(sizes) / max(1, len(sizes)), 2))
 
     # isolation, checked on the implementation itself: the callbacks seen for
@@ -242,8 +268,9 @@ class C06Updates(Prop):
         for r in rs:
             c = r['case']
             for u, s in c['tasks']:
-                sub.append({'kind': 'batches', 'tasks': [[u, s]],
-                            'batches': [[n for n in b if n[0] == u] for b in c['batches']]})
+                sub.append(dict({'kind': 'batches', 'tasks': [[u, s]],
+                                 'batches': [[n for n in b if n[0] == u] for b in c['batches']]},
+                                **({'raiser': c['raiser']} if c.get('raiser') else {})))
                 ref.append((r, u))
         if not sub:
             return []
